@@ -197,10 +197,52 @@ def or_form(prog: Program) -> RuleResult:
             "conditions over the same variables are not combined with the else-if form")
     r.check(bool(ne) and all(built(o, "Union") for _, o in ne), "optimize_or#different-variables->union", f"{f.module.relpath}:{f.node.lineno}", "", "different variables: Union(left, right)",
             "conditions over different variables are not combined with the union form (solutions of the right side for other variables are dropped)")
-    # the variable sets exclude literals and come from each side's unique variables
-    txt = src(f.node)
-    r.check(txt.count("_unique_variables_") >= 2 and "Literal" in txt, "optimize_or#variables-without-literals", f"{f.module.relpath}:{f.node.lineno}", "", "literals are not variables of a side",
-            "the compared sets are not the sides' unique non-literal variables")
+    # what counts as a variable of a side: the filter applied to each side's unique variables is evaluated on three model nodes - a
+    # variable over a domain (kept), a literal and a call of a predicate / symbolic function (both computed from the others: dropped)
+    from ..modeleval import evaluate, predicate_body
+
+    filters = []
+    local_defs = {n.name: n for n in ast.walk(f.node) if isinstance(n, ast.FunctionDef) and n is not f.node}
+    for c in [x for x in ast.walk(f.node) if isinstance(x, ast.Call) and isinstance(x.func, ast.Attribute) and x.func.attr == "filter" and "_unique_variables_" in src(x.func.value) and x.args]:
+        a0 = c.args[0]
+        fn_node = a0 if isinstance(a0, ast.Lambda) else local_defs.get(a0.id) if isinstance(a0, ast.Name) else None
+        side = "left" if "left" in src(c.func.value) else ("right" if "right" in src(c.func.value) else "?")
+        filters.append((side, c, fn_node))
+    sides = {s_ for s_, _, _ in filters}
+    r.check(sides == {"left", "right"}, "optimize_or#both-sides-filtered", f"{f.module.relpath}:{f.node.lineno}", str(sorted(sides)), "the unique variables of both sides are filtered",
+            "the compared sets are not the (filtered) unique variables of the left and of the right side")
+
+    class _Lit:
+        _child_vars_ = {}
+        _kwargs_ = {}
+        _predicate_type_ = None
+
+    class _Var:
+        _child_vars_ = {}
+        _kwargs_ = {}
+        _predicate_type_ = None
+
+    class _Call:
+        _child_vars_ = {"n": object()}
+        _kwargs_ = {"n": object()}
+        _predicate_type_ = "symbolic function"
+
+    class _HV:
+        def __init__(self, v):
+            self.value = v
+
+    models = {"a variable over a domain": (_Var(), True), "a literal": (_Lit(), False), "a call of a predicate / symbolic function": (_Call(), False)}
+    for side, c, fn_node in filters:
+        if fn_node is None:
+            raise AnalysisError("OR-FORM: the variable filter of optimize_or is neither a lambda nor a local function")
+        body = predicate_body(fn_node)
+        p0 = (fn_node.args.args[0].arg)
+        for label, (obj, want) in models.items():
+            got = bool(evaluate(body, {p0: _HV(obj), "Literal": _Lit, "Variable": _Var}, "the variable filter of optimize_or"))
+            r.check(got == want, f"optimize_or#{side}-filter:{label.split(' ')[1]}", f"{f.module.relpath}:{c.lineno}", src(body)[:100],
+                    f"{label} is {'kept' if want else 'dropped'}",
+                    f"{label} is {'dropped from' if want else 'counted among'} the variables of the {side} side: "
+                    + ("or_(even(x), x.a == 0) is built as the union form although both sides range over x only, and every x satisfying both sides is returned twice" if not want else "variables over domains are ignored"))
     return r
 
 
@@ -209,4 +251,7 @@ def run(prog: Program, tier: str) -> List[RuleResult]:
     from .c01 import ep_neg
 
     # negation: a wrong dual loses satisfying assignments as easily as it admits wrong ones
-    return [ep_bound(prog), ep_gate(prog), or_form(prog), ep_neg(prog)]
+    from .c03 import domain_cache
+
+    # the caching iterator behind every variable domain: a value lost from the cache is a solution lost from every later evaluation
+    return [ep_bound(prog), ep_gate(prog), or_form(prog), ep_neg(prog), domain_cache(prog)]
